@@ -260,6 +260,22 @@ func runC15(rec *vkit.Recorder, c *c15Case) []vkit.Violation {
 				return true
 			}},
 		}
+		// the value of every kind of label that ends up in the final label set (also the unusual __name__)
+		for _, name := range []string{"zone", "dc", "env", "__name__"} {
+			name := name
+			edits = append(edits, edit{"label-value/" + name, func(j *jobSpec, gs []grpSpec) bool {
+				for i := range gs {
+					if gs[i].Labels == nil {
+						gs[i].Labels = map[string]string{}
+					}
+					gs[i].Labels[name] = "edited-value"
+					for _, t := range gs[i].Targets {
+						delete(t, name)
+					}
+				}
+				return true
+			}})
+		}
 		for _, e := range edits {
 			var cc c15Case
 			b, _ := json.Marshal(c)
